@@ -35,9 +35,9 @@ def pendingOk (σ : State) : Prop :=
     (∀ b ∈ bs, b.wf) ∧ ∀ s ∈ σ.data, s.ooo = true → σ.oooGc < s.ref → s.ref ≤ r → ∃ b ∈ bs, s ∈ b.samples
   | .oSwapped r => σ.lastGC < r
   | .cWritten ps b =>
-    b.wf ∧ b.id ∉ ps ∧ b.id ∉ σ.removed ∧ ∀ b' ∈ σ.blocks, b'.id ∈ ps → ∀ s ∈ b'.samples, s ∈ b.samples
+    ps ≠ [] ∧ b.wf ∧ b.id ∉ ps ∧ b.id ∉ σ.removed ∧ ∀ b' ∈ σ.blocks, b'.id ∈ ps → ∀ s ∈ b'.samples, s ∈ b.samples
   | .oLastGC r | .oWaited r => σ.lastGC = r
-  | .deleting ps c => (∀ b ∈ σ.blocks, b.id ∉ ps) ∧ ∀ p, c = some p → p ∈ ps
+  | .deleting ps c => (∀ b ∈ σ.blocks, b.id ∉ ps) ∧ (∀ p, c = some p → p ∈ ps) ∧ ps ≠ []
   | _ => True
 
 def flagOk (σ : State) : Prop :=
@@ -110,6 +110,6 @@ theorem mstep_ginv (σ σ' : State) (a : MAct) (hi : GInv σ) (h : mstep σ a = 
     subst h
     constructor <;>
       (simp only [pendingOk, flagOk, cov, ocov, inDb, Blk.wf, List.mem_append, List.mem_flatMap,
-        List.mem_filter, not_or, not_exists, not_and] at *) <;> grind)
+        List.mem_filter, not_or, not_exists, not_and, List.isEmpty_iff] at *) <;> grind)
 
 end Prom.CompactionProtocol
